@@ -53,10 +53,8 @@ def main():
             rec = json.load(fp)
         fn = getattr(mod, 'replay', None)
         if fn is None:
-            print(json.dumps(rec, indent=1, ensure_ascii=False))
-            print('(this check has no single-case replayer; the witness above '
-                  'is self-contained)')
-            return 0
+            from vlib import replay as generic
+            return generic.replay(rec)
         return fn(rec) or 0
 
     if not bootstrap.ensure_deps(quiet=False):
